@@ -797,9 +797,18 @@ class C03Betting(Monitor):
                         f'(trailing all-in raises {trailing}, largest raise {max_inc}, acted {sorted(r["acted"])}, player {p}) '
                         f'covered {covered} nobody-can-call-more {nobody}; bets {s.bets} stacks {s.stacks}')
             return
+        # side condition (g) of the Lean history theorems (C03Round.CompletionBounded), on the implementation:
+        # while the bring-in may still be completed the first street is on and nobody has more than it in front
+        if r['completing'] and (s.street_index != 0 or max_bet > s.bring_in):
+            self.report('completion_bound', 'completion_bound',
+                        f'the bring-in {s.bring_in} can still be completed on street {s.street_index} with bets {s.bets}')
         if exp_raise:
             mn = s.min_completion_betting_or_raising_to_amount
             mx = s.max_completion_betting_or_raising_to_amount
+            if mn is not None and mn <= max_bet:
+                self.report('amounts', 'raise_not_above',
+                            f'the smallest accepted bet/raise is to {mn}, not above the largest bet {max_bet} '
+                            f'(bets {s.bets} stacks {s.stacks}, completing {r["completing"]})')
             if (mn, mx) != (exp_min, exp_max):
                 self.report('amounts', f'amounts:{structure}',
                             f'min/max raise-to {mn}/{mx}, rules {exp_min}/{exp_max} (bets {s.bets} stacks {s.stacks} '
